@@ -126,6 +126,6 @@ def run(ctx: Ctx) -> None:
     rule_r3(ctx)
     polarity_rule(ctx, "C04.R4", sides=("and",))
     from .c05 import unfiltered_rule, walker_rule
-    walker_rule(ctx, "C04.R4", only=("explode_generics",))
+    walker_rule(ctx, "C04.R4", only=("reachability",))
     unfiltered_rule(ctx, "C04.R4")
     ctx.assumptions += ["exhaustive enumeration of decision sequences is not performed (not this family)"]
